@@ -54,9 +54,9 @@ Proof.
     + cbn [orb]. destruct SCAN_SIZE_TEST; auto. cbn [andb]. lia.
 Qed.
 
-(* strongest true restriction: in every state where the LEAF flags are sound, a collection
-   keeps everything that is truly reachable, untouched *)
-Lemma reachable_kept_partial h stk a it : leaf_ok (run h gc_init) ->
+(* in every state where the LEAF flags are sound a collection keeps everything that is truly
+   reachable, untouched (used with leaf_flag_sound to prove reachable_kept_full) *)
+Lemma reachable_kept_of_leaf_ok h stk a it : leaf_ok (run h gc_init) ->
   treach (items (run h gc_init)) (mark_seeds stk (run h gc_init)) a ->
   lookup a (items (run h gc_init)) = Some it ->
   lookup a (items (collect stk (run h gc_init))) = Some it /\
